@@ -21,12 +21,12 @@ impl Sess {
     fn input(&mut self, bytes: &[u8]) -> (Option<String>, Option<String>, Vec<(Vec<u8>, bool)>) {
         match self {
             Sess::Server(h) => {
-                let mut o = Obs { panicked: None, err: None, events: Vec::new(), packets: Vec::new(), unhandleable: 0 };
+                let mut o = Obs::empty();
                 h.input(bytes, &mut o);
                 (o.panicked, o.err, o.packets)
             }
             Sess::Client(h) => {
-                let mut o = Obs { panicked: None, err: None, events: Vec::new(), packets: Vec::new(), unhandleable: 0 };
+                let mut o = Obs::empty();
                 h.input(bytes, &mut o);
                 (o.panicked, o.err, o.packets)
             }
